@@ -49,7 +49,8 @@ failure to the downloader (`PeerUploadFailed`), which needs a peer connection an
 `noticeEnd k delivered` ends the attempt; if the downloader could not be told and the upload is still `FAILED`
 it is offered again: `FAILED → QUEUED`, /repo a074a9b).  Meanwhile the peer may queue the file again
 (`requeue`): the upload is `QUEUED` with a task still running (`lingering`), a cycle passes it over
-(manager.py:580-589) — it keeps its place in `uploads[:free_upload_slots]`, no task is created — and, since no
+(manager.py:580-589) — it keeps its place in `uploads[:free_upload_slots]` (the slice is taken first: the slot is
+not handed to the next candidate in line, `C05_passed_over_uses_its_slot`), no task is created — and, since no
 state change follows when the lingering task ends, asks to be run again at that moment (`watched`; the code
 modelled is /repo 2a7e24d = `fixes/C05-passed-over-upload-looked-at-again.patch`: without it the upload stays
 queued, with a free slot, until something else happens).
@@ -271,8 +272,11 @@ inductive Op
   | requeue (k : Nat)          -- peer sends PeerTransferQueue for a FAILED / COMPLETE upload (manager.py:1283-1284)
   | apiQueue (k : Nat)         -- `TransferManager.queue` from a documented state (manager.py:277-307)
   | abort (k : Nat)            -- `TransferManager.abort`
-  | setSlots (n : Nat)         -- settings.transfers.limits.upload_slots = n
-  | friend (u : Nat) (b : Bool) -- settings.users.friends gains / loses `u` (a plain attribute: no cycle is requested)
+  | setSlots (n : Nat)         -- the configured limit becomes n, by whatever legal path: `settings.transfers.limits.upload_slots = n`,
+                               -- a new `limits` section (object / dict / copy), a new `transfers` section — `get_upload_slots()`
+                               -- walks `self._settings.transfers.limits.upload_slots` on every call (manager.py:391-393)
+  | friend (u : Nat) (b : Bool) -- settings.users.friends gains / loses `u`, in place or as a new set / a new `users` section (read on
+                               -- every call, manager.py:700; a plain attribute: no cycle is requested)
   | report (u : Nat) (st : UStatus) (priv : Bool)   -- server: GetUserStatus.Response (user/manager.py:383-398, manager.py:1215-1221)
   | reply (u : Nat) (st : Option UStatus)           -- server: AddUser.Response, `none` = user does not exist (user/manager.py:374-381, manager.py:1211-1213)
   | privList (l : List Nat)    -- server: PrivilegedUsers.Response (user/manager.py:352-365)
